@@ -1,0 +1,10 @@
+//go:build verif
+
+// Contracts for package accesscontroller/utils, read by /verif/govc. Comments only.
+package utils
+
+// Create (controller constructor + Save + CreateManifest): body not verified here (dynamic constructor);
+// assumed to touch only the parameters object it is given and content-addressed storage.
+//@ func Create
+//@   trusted
+//@   modifies "F:accesscontroller.CreateAccessControllerOptions.Access", "F:accesscontroller.CreateAccessControllerOptions.Address", "MD:Str:Slice_Str", "MV:Str:Slice_Str", "MC:Str:Slice_Str"
